@@ -106,4 +106,35 @@ func ZZ_C03_I1() {
 	zzverif.Reach("I1 equal encodings")
 }
 
+// ZZ_C03_I7: the chain id is bound by the signature in full.  Two chain ids
+// from a menu (lengths 1..50 - Tendermint allows 50 - including ids that
+// share their first 31 / 32 / 33 / 49 bytes, and ids that are prefixes of
+// each other) and one symbolic transaction: the signed pre-images of the RLP
+// and of the protobuf form are equal only if the chain ids are (round 9,
+// seed C03-i).
+func ZZ_C03_I7() {
+	base := "rigo-enterprise-consortium-network-main-0123456789"
+	menu := []string{"z", "rigo", base[:31], base[:32], base[:32] + "X", base[:33], base[:33] + "Y", base[:49], base[:49] + "a", base[:49] + "b", base}
+	ia, ib := zzverif.Choose("chain.a", len(menu)), zzverif.Choose("chain.b", len(menu))
+	typ := int32(1 + zzverif.Choose("type", 8))
+	tx := zzSymTrx(typ, "t")
+	ra, xa := PreImageToSignTrxRLP(tx, menu[ia])
+	rb, xb := PreImageToSignTrxRLP(tx, menu[ib])
+	zzverif.Assert(xa == nil && xb == nil, "I7 pre-image is built")
+	if ia != ib {
+		zzverif.Assert(!zzverif.SameBytes(ra, rb), "I7 RLP pre-images for different chain ids differ")
+		zzverif.Reach("I7 different chains")
+	} else {
+		zzverif.Assert(zzverif.SameBytes(ra, rb), "I7 pre-image is a function of (chain id, transaction)")
+	}
+	{
+		pa, ya := PreImageToSignTrxProto(tx, menu[ia])
+		pb, yb := PreImageToSignTrxProto(tx, menu[ib])
+		if ya == nil && yb == nil && ia != ib {
+			zzverif.Assert(!zzverif.SameBytes(pa, pb), "I7 protobuf pre-images for different chain ids differ")
+		}
+	}
+	zzverif.Reach("I7 end")
+}
+
 var _ = uint256.NewInt
